@@ -7,9 +7,9 @@
    Changed with /repo c2fb7fb (fix of F53): Lock.acquire() awaits checkpoint_if_cancelled() before it looks at the lock,
    so a call issued inside an already cancelled scope (op CallX) suspends at the lock entry and is then cancelled
    WHATEVER the state of the lock; it no longer becomes a queued waiter of a busy lock (before: queued, then cancelled
-   by the scope's delivery).  A cancelled caller therefore never counts as a waiter for evicts_waited (the F8 window
-   shrinks to waiters that really queued); all witnesses and corpus histories of F3 / F8 / F30 / F31 / F32 / F41 still
-   reproduce.
+   by the scope's delivery).  A caller in an already cancelled scope therefore never counts as a waiter for
+   evicts_waited (the F8 window shrinks to waiters that really queued); all witnesses and corpus histories of
+   F3 / F8 / F30 / F31 / F32 / F41 still reproduce.
 
    Boolean predicates on the op list (sticky ghost flags of the machine) and what they exclude:
      no_inflight_eviction  = evicts_inflight = false        (F3)  no miss ever pops a placeholder whose lock some caller
@@ -43,10 +43,12 @@
 
    Witnesses.  Each finding pattern is exhibited by a vm_compute witness on which ONLY its own predicate is true (the
    whole flag set is stated) and which violates one of the conditional clauses:
-     F3  C20_refuted_keyerror (no_internal_error), C20_refuted_exceeds (bounded), C20_refuted_double_flight (single_flight)
+     F3  C20_refuted_keyerror (no_internal_error), C20_refuted_exceeds (bounded; count_exact: two results, currsize = 1),
+         C20_refuted_double_flight (single_flight)
      F8  C20_refuted_keyerror_waited (no_internal_error), C20_refuted_double_flight_waited / _ttl (single_flight)
      F30 C20_refuted_clear_double_flight (single_flight), C20_refuted_other_loop_count (count_exact)
-     F31 C20_refuted_uncounted_exceeds (bounded)      F32 C20_refuted_maxsize0_double_flight
+     F31 C20_refuted_uncounted_exceeds (bounded; count_exact: two results, currsize = 1)
+     F32 C20_refuted_maxsize0_double_flight
      F41 C20_refuted_dead_placeholder (count_exact, evicts_only_when_full)
    NOT every hypothesis of every theorem has a necessity witness: none is given for no_waited_eviction in C20_bounded /
    C20_count_exact / C20_evicts_only_when_full (it is what the proof of the store step uses; no history is known that
@@ -250,7 +252,7 @@ Print Assumptions C20_refuted_keyerror.
 
 Theorem C20_refuted_exceeds :
   exists cf ops m, maxsize cf = Some m /\ fl (run cf ops) = mkfl true false false false false false /\
-    m < length (filter (fun x => negb (is_place (se x))) (dict (run cf ops))).
+    m < length (filter (fun x => negb (is_place (se x))) (dict (run cf ops))) /\ currsize (run cf ops) = 1%Z.
 Proof. exact lru_refuted_exceeds. Qed.
 Print Assumptions C20_refuted_exceeds.
 
